@@ -309,7 +309,11 @@ pub fn run_http_case(case: &HttpCase, with_access_list: bool) -> CaseResult {
                     .collect();
                 let removed = model.clean(now);
                 if with_access_list {
+                    let n = model.torrents.len();
                     model.retain_torrents(|hsh| allowed(&listed, hsh));
+                    if model.torrents.len() < n {
+                        out.label("forbidden-torrent-cleaned");
+                    }
                 }
                 aquatic_common::verif::set_mock_seconds(Some(now as u32));
                 h.maps.clean(&h.config, &h.access_list, h.start);
@@ -331,6 +335,20 @@ pub fn run_http_case(case: &HttpCase, with_access_list: bool) -> CaseResult {
                 }
                 if removed.iter().any(|(_, _, e)| e.deadline == now) {
                     out.label("clean-at-deadline");
+                }
+                if removed.iter().any(|(_, _, e)| e.deadline + 1 == now) {
+                    out.label("clean-one-after-deadline");
+                }
+                if model.torrents.values().any(|t| t.values().any(|e| e.deadline == now + 1)) {
+                    out.label("clean-one-before-deadline");
+                }
+                for (tk, _, _) in &removed {
+                    let left = model.size(tk.0, &tk.1);
+                    out.label(if large.get(tk).copied().unwrap_or(false) || left > 4 {
+                        "expired-in-heap-map"
+                    } else {
+                        "expired-in-inline-map"
+                    });
                 }
                 let got = h.maps.verif_num_torrents();
                 let want = (model.totals(true).0, model.totals(false).0);
